@@ -158,6 +158,7 @@ func runOneMutant(spec, repo string) int {
 			}
 		}()
 		props[id].Run(c)
+		runED(c)
 		c.finish()
 	}()
 	var fired []string
